@@ -459,6 +459,62 @@ struct IntrListNamed : IMap {
     bool contains( long k ) override { return l->contains( k ); }
 };
 
+// Tie A for LazyList (Lean machine lean/CdsVerif/Algo/Lazy/Model.lean): intrusive LazyList whose sentinels' m_pNext
+// words are named `h` and `t`, whose items' m_pNext words are named n1, n2, … in the order in which the operations
+// that bring an item (insert, update) are INVOKED, and whose lock words are named `<node>.lock`.  The intrusive
+// update() keeps the old item when the key exists (spec operation `upsert_keep`): keys and payloads are immutable.
+// The item constructor is kept quiet (it is not part of insert()).
+template <class GC, class L, class Item>
+struct IntrLazyNamed : IMap {
+    std::unique_ptr<L> l;
+    std::vector<std::unique_ptr<Item>> items;
+    size_t named = 0;
+    IntrLazyNamed()
+    {
+        set_quiet( true );
+        l.reset( new L );
+        set_quiet( false );
+        upd = "upsert_keep";
+        reg_name( &l->m_Head.m_pNext, sizeof( l->m_Head.m_pNext ), "h" );
+        reg_name( &l->m_Head.m_Lock, sizeof( l->m_Head.m_Lock ), "h.lock" );
+        reg_name( &l->m_Tail.m_pNext, sizeof( l->m_Tail.m_pNext ), "t" );
+        reg_name( &l->m_Tail.m_Lock, sizeof( l->m_Tail.m_Lock ), "t.lock" );
+    }
+    ~IntrLazyNamed()
+    {
+        l.reset();
+        GC::force_dispose();
+    }
+    Item* make( long k, long v )
+    {
+        set_quiet( true );
+        Item* p = new Item;
+        set_quiet( false );
+        p->key = k; p->val = v;
+        items.emplace_back( p );
+        char nm[32];
+        std::snprintf( nm, sizeof nm, "n%zu", ++named );
+        reg_name( &p->m_pNext, sizeof( p->m_pNext ), nm );
+        reg_name( &p->m_Lock, sizeof( p->m_Lock ), std::string( nm ) + ".lock" );
+        return p;
+    }
+    bool insert( long k, long v ) override { return l->insert( *make( k, v )); }
+    std::pair<bool, bool> update( long k, long v, bool allow ) override
+    {
+        return l->update( *make( k, v ), []( bool, Item&, Item& ) {}, allow );
+    }
+    bool erase( long k, long& v ) override { return l->erase( k, [&v]( Item const& item ) { v = item.val; } ); }
+    bool extract( long k, long& v ) override
+    {
+        auto p = l->extract( k );
+        if ( !p ) return false;
+        v = p->val;
+        return true;
+    }
+    bool find( long k, long& v ) override { return l->find( k, [&v]( Item& item, long ) { v = item.val; } ); }
+    bool contains( long k ) override { return l->contains( k ); }
+};
+
 // Iterable: update replaces the data pointer
 template <class GC, class L, class Item>
 struct IntrListIter : IMap {
@@ -593,6 +649,8 @@ struct Fixture {
         else if ( v == "imichael_hp_named" ) m.reset( new IntrListNamed<HP, ci::MichaelList<HP, mitem<HP>, imtraits<HP>>, mitem<HP>> );
         else if ( v == "imichael_dhp" ) m.reset( new IntrListML<DHP, ci::MichaelList<DHP, mitem<DHP>, imtraits<DHP>>, mitem<DHP>> );
         else if ( v == "ilazy_hp" ) m.reset( new IntrListML<HP, ci::LazyList<HP, litem<HP>, iltraits<HP>>, litem<HP>> );
+        // tie A variant, not chosen at random (use --variant): see IntrLazyNamed
+        else if ( v == "ilazy_hp_named" ) m.reset( new IntrLazyNamed<HP, ci::LazyList<HP, litem<HP>, iltraits<HP>>, litem<HP>> );
         else if ( v == "iiterable_hp" ) m.reset( new IntrListIter<HP, ci::IterableList<HP, iitem, iitraits>, iitem>( odd ));
         else if ( v == "michael_nogc" ) m.reset( new SetListNogc<CMichael<NOGC, 0, false>> );
         else if ( v == "lazy_nogc" ) m.reset( new SetListNogc<CLazy<NOGC, 1, false>> );
